@@ -170,10 +170,10 @@ open Cello.Config.Keep in
 def parseKind (t : String) : Option Kind :=
   match t with
   | "a" => some .array | "l" => some .list | "t" => some .tableV | "k" => some .tableK | "r" => some .treeV
-  | "q" => some .treeK | "u" => some .tuple | "c" => some .chain | "s" => some .tls | _ => none
+  | "q" => some .treeK | "u" => some .tuple | "c" => some .chain | "s" => some .tls | "w" => some .thread | _ => none
 
 def keepOpNames : List String :=
-  ["hnew", "hput", "hget", "hread", "hrem", "hrel", "hshrink", "hreserve", "hchurn", "hdrop", "hdel"]
+  ["hnew", "hput", "hget", "hread", "hrem", "hrel", "hshrink", "hreserve", "hchurn", "hdrop", "hdel", "hrun"]
 
 /-- the keep operations (`h…`): syntax exactly as harness/h_cfg.c checks it -/
 def parseKeep (ws : List String) : Option Keep.KOp :=
@@ -189,12 +189,14 @@ def parseKeep (ws : List String) : Option Keep.KOp :=
   | ["hread", h] => do some (.hread (← parseSlot h))
   | ["hdrop", h] => do some (.hdrop (← parseSlot h))
   | ["hdel", h] => do some (.hdel (← parseSlot h))
+  | ["hrun", h] => do some (.hrun (← parseSlot h))
   | _ => none
 
 def showKOut : Keep.KOut → String
   | .unit => "ok"
   | .got i p => s!"hget {i}:{p}"
   | .churn c => s!"churn {c}"
+  | .ran n sum => s!"hrun n={n} sum={sum}"
   | .read items stat =>
     let body := ",".intercalate (items.map (fun e => s!"{e.1}:{e.2.1}:{e.2.2}"))
     let tail := match stat with
